@@ -25,7 +25,9 @@ RULE = ('lookup: a FRESH interpreter per case (module defaults are read from the
         'parse_short_name on generated paths and, in a third of the cases, LongPoll.start with the resolved POLL_TIMER '
         '(thread liveness, ticks for small intervals). frame: in-process, generated absolute/relative paths x '
         'include/exclude/app-root sets given as code lists or as DEEP_IN_APP_INCLUDE/EXCLUDE text (nested prefixes, '
-        'prefixes of prefixes, the interpreter prefix, empty strings). timer: RepeatedTimer with the interval as '
+        'prefixes of prefixes, the interpreter prefix, empty strings, path texts not in normal form — trailing slash, //, . '
+        'and .. components — with probe files such as <root>2/x.py; the same texts for APP_ROOT from code and from '
+        'DEEP_APP_ROOT through deep.start). timer: RepeatedTimer with the interval as '
         'number or text. d30: IN_APP_INCLUDE/EXCLUDE given in code as the documented comma separated str (known '
         'finding stream). Non-trivial = a level below "code" decided / an exclusion or inclusion matched / the timer '
         'ticked. Distinct = distinct canonical JSON.')
@@ -194,6 +196,12 @@ print('\n@@' + json.dumps(out))
 
 # --------------------------------------------------------------------------------------- generation
 DIRS = ['/app', '/app/src', '/app/src/vendor', '/opt/shared', '/srv/x', '/app2', '/', '/usr/lib/python3']
+# path texts that are not in normal form: the agent compares prefixes as text, so they must be used as written,
+# identically from code and from the environment
+RAW_DIRS = ['/srv/app/', '/srv//app', '/srv/./app', '/srv/x/../app', '/app/', '/opt/shared/', '/app/src/.', '//app']
+RAW_PROBES = ['/srv/app/main.py', '/srv/app2/x.py', '/srv/application/other.py', '/srv//app/m.py', '/srv/./app/m.py',
+              '/srv/x/../app/m.py', '/srv/x/y.py', '/app/main.py', '/app2/x.py', '/opt/shared/m.py',
+              '/opt/sharedness/z.py', '/app/src/a.py', '/app/src/./b.py', '//app/c.py']
 FILES = ['/app/main.py', '/app/src/a.py', '/app/src/vendor/lib/v.py', '/opt/shared/m.py', '/app2/x.py', '/appx.py',
          '/usr/lib/python3/os.py', 'relative/r.py', '/srv/x', '/srv/x/y.py', '<string>', '', '/opt/sharedness/z.py']
 
@@ -202,8 +210,10 @@ def g_paths(rng, n):
     out = []
     for _ in range(n):
         r = rng.random()
-        if r < 0.6:
+        if r < 0.45:
             out.append(rng.choice(FILES))
+        elif r < 0.6:
+            out.append(rng.choice(RAW_PROBES))
         elif r < 0.75:
             out.append('$PX/lib/python3.12/site-packages/p/q.py')
         elif r < 0.85:
@@ -215,7 +225,7 @@ def g_paths(rng, n):
 
 def g_prefixes(rng):
     n = rng.choice([0, 0, 1, 1, 2, 3])
-    ps = [rng.choice(DIRS + ['$PX', '/app/sr', '/opt']) for _ in range(n)]
+    ps = [rng.choice(DIRS + ['$PX', '/app/sr', '/opt'] + (RAW_DIRS if rng.random() < 0.3 else [])) for _ in range(n)]
     if rng.random() < 0.1:
         ps.append('')
     return ps
@@ -224,7 +234,7 @@ def g_prefixes(rng):
 def g_frame(rng, d30=False):
     """in-process: include/exclude as code lists or as environment text; APP_ROOT in code."""
     custom, env = [], {}
-    root = rng.choice(DIRS[:6] + ['/nowhere', ''])
+    root = rng.choice(DIRS[:6] + ['/nowhere', ''] + (RAW_DIRS if rng.random() < 0.3 else []))
     custom.append(['APP_ROOT', {'s': root}])
     for key in ('IN_APP_INCLUDE', 'IN_APP_EXCLUDE'):
         ps = g_prefixes(rng)
@@ -250,7 +260,7 @@ def g_lookup(rng):
             if k == 'POLL_TIMER':
                 env['DEEP_' + k] = rng.choice(['1', '10', '0.05', ' 2 ', '0.1', '3'])
             elif k == 'APP_ROOT':
-                env['DEEP_' + k] = rng.choice(['/app', '/srv/x', '', '/app/src'])
+                env['DEEP_' + k] = rng.choice(['/app', '/srv/x', '', '/app/src'] + RAW_DIRS)
             else:
                 env['DEEP_' + k] = rng.choice(TEXTS)
         r = rng.random()
@@ -259,7 +269,8 @@ def g_lookup(rng):
                 v = rng.choice([{'i': 1}, {'i': 10}, {'f': '0.05'}, {'s': '0.05'}, {'s': '3'}, None,
                                 {'call': {'s': '0.1'}}])
             elif k == 'APP_ROOT':
-                v = rng.choice([{'s': '/app'}, {'s': '/opt/shared'}, {'s': ''}, {'call': {'s': '/app2'}}])
+                v = rng.choice([{'s': '/app'}, {'s': '/opt/shared'}, {'s': ''}, {'call': {'s': '/app2'}}] +
+                               [{'s': d} for d in RAW_DIRS])
             elif k == 'PLUGINS':
                 v = {'l': []}
             elif k == 'LOGGING_CONF':
@@ -282,7 +293,8 @@ def g_lookup(rng):
     names = list(DOCUMENTED) + ['PLUGINS'] + rng.sample(UNKNOWN, 3) + ([rng.choice(OWN)] if rng.random() < 0.4 else [])
     return {'kind': 'lookup', 'env': env, 'custom': custom, 'names': names, 'start': start,
             'layout': [rng.choice(['root', 'proj']), rng.choice(['pkg', 'src'])],
-            'files': g_paths(rng, 4), 'timer': rng.random() < 0.35, 'none_config': rng.random() < 0.5}
+            'files': g_paths(rng, 4) + rng.sample(RAW_PROBES, 3), 'timer': rng.random() < 0.35,
+            'none_config': rng.random() < 0.5}
 
 
 def g_timer(rng):
@@ -320,6 +332,14 @@ def corpus():
          'layout': ['root', 'pkg'], 'files': ['/a/x.py', '/srv/x/y.py', '$BASE/root/pkg/main.py'], 'timer': True,
          'none_config': False},
         {'kind': 'timer', 'interval': {'s': '0.02'}},
+        # APP_ROOT only from the environment, not in normal form, through deep.start: used as written
+        {'kind': 'lookup', 'env': {'DEEP_APP_ROOT': '/srv/app/'}, 'custom': [], 'names': ['APP_ROOT'], 'start': True,
+         'layout': ['root', 'pkg'], 'files': ['/srv/app/main.py', '/srv/app2/x.py', '/srv/application/other.py'],
+         'timer': False, 'none_config': True},
+        {'kind': 'lookup', 'env': {'DEEP_APP_ROOT': '/srv/x/../app', 'DEEP_IN_APP_INCLUDE': '/opt/shared/,/srv//app'},
+         'custom': [], 'names': ['APP_ROOT', 'IN_APP_INCLUDE'], 'start': True, 'layout': ['proj', 'src'],
+         'files': ['/srv/app/main.py', '/srv/x/../app/m.py', '/opt/shared/m.py', '/opt/sharedness/z.py', '/srv//app/m.py'],
+         'timer': False, 'none_config': False},
     ]
 
 
